@@ -1191,20 +1191,26 @@ class PendingClassDef(_PendingCompoundStmt[ClassDef]):
             )
         )
 
+        # the names should not conflict with user's names (e.g. the class name)
+        member_key_name = ol_name(OL_CLASS_MEMBER_KEY)
+        member_value_name = ol_name(OL_CLASS_MEMBER_VALUE)
         load_class = ListComp(
             elt=Call(
                 func=Name(id="setattr", ctx=Load()),
                 args=[
                     self.nsp.get_load_name(self.node.name),
-                    Name(id="k", ctx=Load()),
-                    Name(id="v", ctx=Load()),
+                    Name(id=member_key_name, ctx=Load()),
+                    Name(id=member_value_name, ctx=Load()),
                 ],
                 keywords=[],
             ),
             generators=[
                 comprehension(
                     target=Tuple(
-                        elts=[Name(id="k", ctx=Store()), Name(id="v", ctx=Store())],
+                        elts=[
+                            Name(id=member_key_name, ctx=Store()),
+                            Name(id=member_value_name, ctx=Store()),
+                        ],
                         ctx=Store(),
                     ),
                     iter=Call(
